@@ -46,7 +46,10 @@ def install_demo(seed, repo):
             if not name.endswith(".go"):
                 continue
             dst = None
-            if os.path.dirname(rel) and os.path.isdir(os.path.join(repo, os.path.dirname(rel))):
+            if os.path.dirname(rel) == "ROOT":
+                # demo/ROOT/<file>: a test of package main in the repository root
+                dst = name
+            elif os.path.dirname(rel) and os.path.isdir(os.path.join(repo, os.path.dirname(rel))):
                 dst = os.path.join(os.path.dirname(rel), name)
             else:
                 # look the intended path up in the README
@@ -60,10 +63,10 @@ def install_demo(seed, repo):
                         dst = os.path.join(cands[0], name)
             if dst is None:
                 return None, "cannot determine where %s goes" % rel
-            os.makedirs(os.path.join(repo, os.path.dirname(dst)), exist_ok=True)
+            os.makedirs(os.path.join(repo, os.path.dirname(dst)) or repo, exist_ok=True)
             shutil.copy(src, os.path.join(repo, dst))
             installed.append(dst)
-            pkgs.add("./" + os.path.dirname(dst))
+            pkgs.add("./" + os.path.dirname(dst) if os.path.dirname(dst) else ".")
     if not installed:
         return None, "no demonstration files"
     return sorted(pkgs), installed
